@@ -277,7 +277,10 @@ impl Check for C17 {
             Ok(())
         });
         match r {
-            Ok(Ok(())) => acc.bump("deterministic-fixed-point"),
+            Ok(Ok(())) => {
+                acc.bump("deterministic-fixed-point");
+                acc.sample(|| text.clone());
+            }
             Ok(Err(e)) => acc.viol("U-serde", format!("{}: {}", T::NAME, label), None, e),
             Err(p) => acc.viol("U-serde", format!("{}: {}", T::NAME, label), None, format!("panic: {}", p)),
         }
@@ -404,7 +407,10 @@ fn value_trees(rep: &mut Report, tier: Tier) {
             Ok(())
         });
         match r {
-            Ok(Ok(())) => acc.bump("value-tree-ok"),
+            Ok(Ok(())) => {
+                acc.bump("value-tree-ok");
+                acc.sample(|| format!("{} => {:?}", label, t.to_string()));
+            }
             Ok(Err(e)) => acc.viol("U-value-tree", label, None, e),
             Err(p) => acc.viol("U-value-tree", label, None, format!("panic: {}", p)),
         }
